@@ -235,7 +235,7 @@ pub struct Const {
 
 #[derive(Serialize, Deserialize, Debug, Clone, PartialEq)]
 pub struct Method {
-    #[serde(default, skip_serializing_if = "BoolExt::is_true")]
+    #[serde(default = "default_true", skip_serializing_if = "BoolExt::is_true")]
     pub oneway: bool,
     pub name: String,
     pub return_type: Type,
@@ -561,6 +561,11 @@ impl Type {
 
 trait BoolExt {
     fn is_true(&self) -> bool;
+}
+
+// Counterpart of `skip_serializing_if = "BoolExt::is_true"`: a skipped field was `true`
+fn default_true() -> bool {
+    true
 }
 
 impl BoolExt for bool {
